@@ -9,8 +9,9 @@
        /repo/format/pcap/shared.go:
        * `reassembledSG`   flowsdecoder.go:61-92  (direction selection, the `skip == -1` rule, skip accounting, append)
        * `newConn`         flowsdecoder.go:106-153 (`New`: endpoint / port extraction)
-       * `acceptReassembled` flowsdecoder.go:218-221 (`packet`: "newIPv4.Length != l" — how fq decides that
-                            DefragIPv4 handed back a freshly reassembled datagram)
+       * `acceptReassembled` flowsdecoder.go:211-225 (`packet`: "newIPv4 != ip4" — how fq decides that DefragIPv4
+                            handed back a freshly reassembled datagram; `acceptReassembledOld` = the length test
+                            it replaced, known finding `defrag-length`, fixed)
        * `fsmCheck`        flowsdecoder.go:39-59 (`Accept` = gopacket TCPSimpleFSM.CheckState, options off)
        * `linkToDecodeFn`  shared.go:10-18 (link type dispatch table)
        * `fieldFlowsDir`   shared.go:37-56 (the metadata exposed per direction)
@@ -160,10 +161,17 @@ def newConn (netSrc netDst tpSrc tpDst : List UInt8) : Conn α :=
   { client := { ip := netSrc, port := if tpSrc.length == 2 then be16 tpSrc else 0 },
     server := { ip := netDst, port := if tpDst.length == 2 then be16 tpDst else 0 } }
 
-/-- `packet`, flowsdecoder.go:211-221: `l := ip4.Length` of the packet just fed; the value DefragIPv4
-    returns for a completed datagram has `Length = f.Highest` = the payload length WITHOUT header
-    (gopacket ip4defrag/defrag.go:283); fq takes the packet for reassembled iff the two differ. -/
-def acceptReassembled (payloadLen lastFragTotalLength : Nat) : Bool := payloadLen != lastFragTotalLength
+/-- `packet`, flowsdecoder.go:211-225 (after fix 8dc84a5a): `DefragIPv4` hands back the packet itself when it
+    is not a fragment, nil while a datagram is incomplete and a NEW packet when the fragment just fed completed
+    a datagram; fq takes the result for reassembled iff `newIPv4 != ip4`, i.e. iff the packet was a fragment
+    that completed a datagram. -/
+def acceptReassembled (wasFragment completes : Bool) : Bool := wasFragment && completes
+
+/-- the OLD test (before 8dc84a5a, kept for the regression theorem `Props.C19.defrag_length_regression`):
+    `l := ip4.Length` of the packet just fed; the value DefragIPv4 returns for a completed datagram has
+    `Length = f.Highest` = the payload length WITHOUT header (gopacket ip4defrag/defrag.go:283); fq took the
+    packet for reassembled iff the two differ — wrong when the other fragments carry exactly 20 bytes. -/
+def acceptReassembledOld (payloadLen lastFragTotalLength : Nat) : Bool := payloadLen != lastFragTotalLength
 
 /-! ### `(*TCPConnection).Accept`, flowsdecoder.go:39-59: with `CheckTCPOptions: false` (pcap.go:91,
     pcapng.go:359) it is exactly gopacket's `TCPSimpleFSM.CheckState` (reassembly/tcpcheck.go:170-246) with
